@@ -200,6 +200,9 @@ fn emit_assignment(
                 out.push(json!({"VAR=": variable_name, "re": true}));
             }
             out.push(json!("/ev"));
+            if expression_has_function_call(expression) {
+                out.push(json!("\n"));
+            }
         }
         AssignMode::SubtractAssign => {
             out.push(json!("ev"));
@@ -217,6 +220,9 @@ fn emit_assignment(
                 out.push(json!({"VAR=": variable_name, "re": true}));
             }
             out.push(json!("/ev"));
+            if expression_has_function_call(expression) {
+                out.push(json!("\n"));
+            }
         }
     }
 }
